@@ -7,6 +7,7 @@ import (
 	"sort"
 	"strings"
 	"sync"
+	"sync/atomic"
 	"time"
 
 	"github.com/arloliu/go-secs/v2/hsms"
@@ -137,7 +138,7 @@ func c06One(env *fw.Env, i int64) {
 	var pending []peer.Frame // primaries held for permuted replies
 	rejectReason := func(tok string) byte { return byte(1 + fw.HashStr("rr", tok)%255) }
 	var unsolN uint32
-	var bgWG sync.WaitGroup
+	var bgPending atomic.Int64 // delayed replies still to be written (an atomic, not a WaitGroup: the peer's reader adds while the main goroutine may already be waiting)
 	onFrame := func(c *peer.Conn, f peer.Frame) bool {
 		if !f.IsData() {
 			return true
@@ -151,9 +152,9 @@ func c06One(env *fw.Env, i int64) {
 		case bNow:
 			_ = c.Send(reply)
 		case bDelayed:
-			bgWG.Add(1)
+			bgPending.Add(1)
 			go func() {
-				defer bgWG.Done()
+				defer bgPending.Add(-1)
 				time.Sleep(time.Duration(2+fw.HashStr("d", tok)%40) * time.Millisecond)
 				_ = c.Send(reply)
 			}()
@@ -269,7 +270,7 @@ func c06One(env *fw.Env, i int64) {
 	for _, f := range flush {
 		_ = pc.Send(f)
 	}
-	bgWG.Wait()
+	waitFor(10*time.Second, func() bool { return bgPending.Load() == 0 })
 	linkUp := !cs.Drop
 	if linkUp {
 		if _, err := pc.Barrier(15 * time.Second); err != nil {
